@@ -44,8 +44,9 @@ QUICK_GRIDS = [
     (2000, 2010, 2015, 2030), (2000, 2003, 2004, 2009),
     # sub-annual grids (time items are floats, every interval shorter than or around one year)
     (2000, 2000.5, 2001, 2001.5), (2000, 2000.25, 2001, 2001.5, 2003.5),
+    (2000, 2000.5, 2001.5, 2003),  # uneven, non-integer, and yet last - first == number of items - 1
 ]
-SUBANNUAL_GRIDS = [(2000, 2000.5, 2001, 2001.5), (2000, 2000.25, 2001, 2001.5, 2003.5), (2000, 2000.5, 2001), (2000.75, 2001, 2001.125, 2001.5)]
+SUBANNUAL_GRIDS = [(2000, 2000.5, 2001.5, 2003), (2000, 2000.5, 2001, 2002, 2003.5, 2005), (2000, 2000.5, 2001, 2001.5), (2000, 2000.25, 2001, 2001.5, 2003.5), (2000, 2000.5, 2001), (2000.75, 2001, 2001.125, 2001.5)]
 
 
 def bounds(g):
